@@ -461,7 +461,62 @@ def fam_exit(tier, rng):
     return out
 
 
-FAMILIES = [fam_args, fam_locals, fam_function, fam_static, fam_shared, fam_nested, fam_errors, fam_exit]
+def fam_exit_blocks(tier, rng):
+    """EXIT SUB / EXIT FUNCTION from inside every kind of block (and nests of two), while the caller has an operand pending
+    or stands inside a SELECT CASE / FOR of its own: whatever the left blocks keep on the machine's stacks goes with them"""
+    out = []
+    kinds = ["select", "selectelse", "for", "while", "do", "if"]
+    nests = [(k,) for k in kinds] + [("select", "for"), ("for", "select"), ("select", "select"), ("while", "select"), ("for", "for")]
+    for kind in ("sub", "fun"):
+        for nest in nests:
+            for caller in ("operand", "select", "for", "plain"):
+                if kind == "sub" and caller == "operand":
+                    continue
+                b = B()
+                n = var("N", "I")
+                ex = b.exit("sub" if kind == "sub" else "function")
+                inner = [b.print(lit("$", "leave")), ex]
+
+                def wrap(k, body, lvl):
+                    v = var("K%d" % lvl, "I")
+                    if k == "select":
+                        return [b.select(n, [([eqt(lit("I", 2))], body)], [b.print(lit("$", "else"))])]
+                    if k == "selectelse":
+                        return [b.select(n, [([eqt(lit("I", 9))], [b.print(lit("$", "nine"))])], body)]
+                    if k == "for":
+                        return [b.for_(v, lit("I", 1), lit("I", 3), None, body, hasstep=False)]
+                    if k == "while":
+                        return [b.let(v, lit("I", 0)), b.while_(bin_("<", v, lit("I", 3)), [b.let(v, bin_("+", v, lit("I", 1)))] + body)]
+                    if k == "do":
+                        return [b.let(v, lit("I", 0)), b.do("bot", "until", bin_(">=", v, lit("I", 3)), [b.let(v, bin_("+", v, lit("I", 1)))] + body)]
+                    return [b.if_([(bin_("=", n, lit("I", 2)), body)])]
+                body = inner
+                for lvl, k in enumerate(reversed(nest)):
+                    body = wrap(k, body, lvl)
+                body = body + [b.print(lit("$", "never"))]
+                if kind == "sub":
+                    subs = [sub("P", [("N", "I")], body)]
+                    call = b.call("P", [lit("I", 2)])
+                else:
+                    subs = [fun("F", "I", [("N", "I")], [b.let(var("F", "I"), lit("I", 10))] + body)]
+                    fc = fcall("F", "I", [lit("I", 2)], 0)
+                    e = bin_("+", lit("I", 1), fc) if caller == "operand" else fc
+                    call = b.let(var("R", "I"), e)
+                    fc["sid"] = call["id"]
+                after = [b.print(lit("$", "r"), var("R", "I"))]
+                i = var("I", "I")
+                if caller == "select":
+                    main = [b.let(var("S", "I"), lit("I", 4)), b.select(var("S", "I"), [([eqt(lit("I", 4))], [call] + after)], [b.print(lit("$", "mainelse"))])]
+                elif caller == "for":
+                    main = [b.for_(i, lit("I", 1), lit("I", 2), None, [call] + after, hasstep=False)]
+                else:
+                    main = [call] + after
+                main.append(b.print(lit("$", "end")))
+                out.append({"fam": "exit-blocks:%s/%s/%s" % (kind, "+".join(nest), caller), "prog": prog(main, subs)})
+    return out
+
+
+FAMILIES = [fam_args, fam_locals, fam_function, fam_static, fam_shared, fam_nested, fam_errors, fam_exit, fam_exit_blocks]
 
 
 def fam_shared_redim(tier, rng):
